@@ -896,3 +896,15 @@ Theorem C06_codegen_simulates_heap_example_runs :
   fst (run_x86 20 2000 hxe_code [3; 100]) = ([(true, 106)], OExit 106).
 Proof. exact hxe_runs. Qed.
 Print Assumptions C06_codegen_simulates_heap_example_runs.
+
+(* `heap_fits` is needed: the statement without a heap bound is false in the ISA model.  The allocation code emitted
+   for one integer field, run from the state whose HEAP register holds the LAST block of the heap region (FREE the
+   frontier, heap zeroed), faults with an out-of-bounds load: acquire_block inspects the header at HEAP_BASE +
+   HEAP_SIZE, no comparison with the end of the region is emitted (Proof/X86HeapFull.v; known finding
+   heap-exhaustion-unchecked of C09, exhibited on the REAL code by step heapfull-x86 and natively by
+   corpus/c09/heap_exhaustion.sc) *)
+From SCC Require Import Proof.X86HeapFull.
+Theorem C06_allocation_without_heap_bound_refuted :
+  ~ (forall h : Z, is_blk h -> hf_outcome h = hf_end).
+Proof. exact alloc_in_region_refuted. Qed.
+Print Assumptions C06_allocation_without_heap_bound_refuted.
